@@ -1035,6 +1035,7 @@ type GenOpts struct {
 	MixedDenom   bool // in a fifth of the cases the minting denom has upper-case letters ("uUSDC")
 	ManyUsed     bool // an eighth of the cases start with 101..130 used nonces (more than one default query page)
 	ShortToken   bool // a third of the cases link (through genesis only) a pair whose remote token has 20 bytes
+	NoAttesters  bool // in a tenth of the cases the genesis lists no attester at all while the threshold is 1..3 (validation accepts that)
 	ManyRegistry bool // in a tenth of the cases one registry (attesters, limits, pairs, messengers) starts with 101..115 entries
 	AbsentOpt    bool // in a sixth of the cases optional genesis fields (flags, body size, counter, threshold) are left out
 	CaseLimits   bool // in a quarter of the cases a second burn limit exists for the upper-cased denom, with another amount
@@ -1057,7 +1058,11 @@ func (g *G) drawGenesis(o GenOpts) *GenSpec {
 		gs.Attesters = append(gs.Attesters, attest.K(k).Spelling(rapid.IntRange(0, 5).Draw(t, "spelling")))
 	}
 	gs.Threshold = uint32(rapid.IntRange(1, n).Draw(t, "threshold"))
-	if o.Decoys && rapid.IntRange(0, 3).Draw(t, "decoys") == 0 {
+	if o.NoAttesters && rapid.IntRange(0, 9).Draw(t, "noattesters") == 0 {
+		gs.Attesters = nil
+		gs.Threshold = uint32(rapid.IntRange(1, 3).Draw(t, "lonelythreshold"))
+	}
+	if o.Decoys && len(gs.Attesters) > 0 && rapid.IntRange(0, 3).Draw(t, "decoys") == 0 {
 		for i, k := 0, rapid.IntRange(1, 2).Draw(t, "ndecoys"); i < k; i++ {
 			d := rapid.SampledFrom([]string{"", "0x", "zz", "04", "0x04", Hex(attest.K(9).Pub[1:]), Hex(attest.K(10).Pub[:33]), "0x" + Hex(attest.K(11).Pub[33:])}).Draw(t, "decoy")
 			dup := false
